@@ -35,6 +35,7 @@ class Engine(Core, ExprMixin, CallMixin, StmtMixin):
         self.sorted_from = {}
         self._keep_alive = []
         self.assuming_post = 0
+        self.rec_limit = 2
 
     # read_field with the type invariant len >= 0
     def read_field(self, st, obj, attr, node=None, heap=None):
@@ -224,13 +225,35 @@ class Engine(Core, ExprMixin, CallMixin, StmtMixin):
     def _solve_here(self, ob, timeout_ms, want_model, extract):
         s = z3.Solver()
         s.set("timeout", timeout_ms)
+        seed = getattr(ob, "seed", None)
+        if seed is not None:
+            s.set("random_seed", seed)
+            z3.set_param("smt.random_seed", seed)
         for a in self.base_axioms():
             s.add(a)
-        for a in self.assumptions[:ob.n_assump]:
-            s.add(a)
-        for p in ob.path:
-            s.add(p)
-        s.add(z3.Not(ob.goal))
+        batch = getattr(ob, "batch", None)
+        if batch:
+            # consecutive obligations proved together: assumptions up to the last one, minus the assumptions that
+            # were derived from the goals of the batch itself (no circular reasoning)
+            lo = batch[0].n_assump
+            hi = batch[-1].n_assump
+            for i, a in enumerate(self.assumptions[:hi]):
+                if i >= lo and i in self.goal_assumptions:
+                    continue
+                s.add(a)
+            goals = []
+            for o in batch:
+                g = o.goal
+                if o.path:
+                    g = z3.Implies(z3.And(*o.path) if len(o.path) > 1 else o.path[0], g)
+                goals.append(g)
+            s.add(z3.Not(z3.And(*goals)))
+        else:
+            for a in self.assumptions[:ob.n_assump]:
+                s.add(a)
+            for p in ob.path:
+                s.add(p)
+            s.add(z3.Not(ob.goal))
         r = s.check()
         out = {"result": "unsat" if r == z3.unsat else ("sat" if r == z3.sat else "unknown")}
         if r == z3.unknown:
@@ -241,6 +264,74 @@ class Engine(Core, ExprMixin, CallMixin, StmtMixin):
             except Exception as ex:
                 out["model_error"] = "%s: %s" % (type(ex).__name__, ex)
         return out
+
+    def solve_many(self, jobs_list, nproc=8):
+        """jobs_list: [(ob, timeout_ms, want_model, extract)]; runs up to nproc forked solvers concurrently"""
+        import os, json, select, signal
+        pending = list(jobs_list)
+        running = {}        # fd -> (pid, ob, t0, hard, chunks)
+        def start(job):
+            ob, timeout_ms, want_model, extract = job
+            r_fd, w_fd = os.pipe()
+            pid = os.fork()
+            if pid == 0:
+                try:
+                    os.close(r_fd)
+                    res = self._solve_here(ob, timeout_ms, want_model, extract)
+                    os.write(w_fd, json.dumps(res, default=str).encode())
+                except BaseException as ex:      # noqa
+                    try:
+                        os.write(w_fd, json.dumps({"result": "unknown", "reason": "solver process error: %s" % ex}).encode())
+                    except Exception:
+                        pass
+                finally:
+                    os._exit(0)
+            os.close(w_fd)
+            running[r_fd] = [pid, ob, time.time(), timeout_ms / 1000.0 + 3.0, []]
+
+        def finish(fd, killed=False):
+            pid, ob, t0, hard, chunks = running.pop(fd)
+            os.close(fd)
+            try:
+                os.kill(pid, signal.SIGKILL)
+            except Exception:
+                pass
+            try:
+                os.waitpid(pid, 0)
+            except Exception:
+                pass
+            ob.time = time.time() - t0
+            ob.backend = "z3-%s" % z3.get_version_string()
+            if not chunks:
+                ob.result, ob.reason = "unknown", "hard timeout (solver killed after %.0fs)" % hard
+                return
+            try:
+                res = json.loads(b"".join(chunks).decode())
+            except Exception as ex:
+                ob.result, ob.reason = "unknown", "unreadable solver answer: %s" % ex
+                return
+            ob.result = res.get("result", "unknown")
+            ob.reason = res.get("reason")
+            ob.model = res.get("model")
+            ob.model_error = res.get("model_error")
+
+        while pending or running:
+            while pending and len(running) < nproc:
+                start(pending.pop(0))
+            now = time.time()
+            timeout = min([max(0.0, r[2] + r[3] - now) for r in running.values()] + [1.0])
+            rl, _, _ = select.select(list(running.keys()), [], [], timeout)
+            for fd in rl:
+                data = os.read(fd, 1 << 20)
+                if data:
+                    running[fd][4].append(data)
+                else:
+                    finish(fd)
+            now = time.time()
+            for fd in list(running.keys()):
+                r = running[fd]
+                if now > r[2] + r[3]:
+                    finish(fd, killed=True)
 
     def to_smt2(self, ob):
         s = z3.Solver()
